@@ -14,6 +14,8 @@ type edgeReq struct {
 	Name string
 	Cond func(v ssa.Value) bool
 	Pol  bool
+	// Match, when set, replaces Cond/Pol: it sees the normalised condition and the polarity of the edge taken.
+	Match func(cond ssa.Value, pol bool) bool
 }
 
 // pathsMissing explores forward from `start` (exclusive; if startEdge >= 0 exploration begins on that successor edge
@@ -42,6 +44,12 @@ func pathsMissingX(start ssa.Instruction, startEdge int, isTarget, avoid func(ss
 		}
 		m := mask
 		for k, rq := range reqs {
+			if rq.Match != nil {
+				if rq.Match(g.Cond, pol) {
+					m |= 1 << k
+				}
+				continue
+			}
 			if rq.Pol == pol && rq.Cond(g.Cond) {
 				m |= 1 << k
 			}
